@@ -9,7 +9,7 @@ from ..terms import A, C, F, V, call, conj, TRUE, CUT, show_program, show_term
 
 ID = 'C08'
 LEVEL = 'model_checking'
-RULE = ('every history of depth <= D over 20 events (17 + start / step / close of a call p(X) that stays suspended across the other events and must keep the resolution it had when it was made), from the empty engine (depth D) and from 3 non-initial states - combined definitions, a Python predicate plus a script, facts between two loads - (depth D-1): register_function for p with inferred / explicit (p/2) / variadic '
+RULE = ('every history of depth <= D over 25 events (load of a self-recursive predicate S7 whose base case comes from another script S8 or from a dynamic fact; 17 + start / step / close of a call p(X) that stays suspended across the other events and must keep the resolution it had when it was made), from the empty engine and from 4 non-initial states (combined definitions, a Python predicate plus a script, facts between two loads, the recursive script), plus a 12-event core one step deeper: register_function for p with inferred / explicit (p/2) / variadic '
         'arity and for q/1; load of script S1 (p/1 facts), S2 (p/1 with a cut in its first clause), S3 (p/2 and q(X) :- '
         'p(X)), S6 (names that collide with context keys: once_1/0, once_1/1, p_n/1, call_n/0, foo_1/0 next to foo/1) each '
         'with overwrite on and off; load of a text that is not Python (S4) and of a text that defines p_1 and q_1 and then '
@@ -25,7 +25,7 @@ X = V('X')
 
 
 def bounds(tier):
-    return {'history_depth': 4 if tier == 'quick' else 5, 'events': len(EVENTS)}
+    return {'history_depth_full_alphabet': 3 if tier == 'quick' else 4, 'history_depth_core12': 4 if tier == 'quick' else 5, 'events': len(EVENTS), 'start_states': len(PREFIXES)}
 
 
 S1 = [(F('p', A('s1a')), TRUE), (F('p', A('s1b')), TRUE)]
@@ -33,9 +33,15 @@ S2 = [(F('p', A('s2a')), CUT), (F('p', A('s2b')), TRUE)]
 S3 = [(F('p', A('s3'), A('s3')), TRUE), (F('q', X), call(F('p', X)))]
 S6 = [(A('once_1'), TRUE), (F('once_1', A('t1')), TRUE), (F('p_n', A('t2')), TRUE), (A('call_n'), TRUE),
       (A('foo_1'), TRUE), (F('foo', A('t3')), TRUE)]
+N_, M_ = V('N'), V('M')
+# a predicate that calls ITSELF: the recursive call must be resolved like any other call (dynamic
+# facts first, then every definition registered for up/2 - also those of other scripts)
+S7 = [(F('dec', A('two'), A('one')), TRUE), (F('dec', A('one'), A('zero')), TRUE),
+      (F('up', X, N_), conj(call(F('dec', N_, M_)), call(F('up', X, M_))))]
+S8 = [(F('up', A('s8'), A('zero')), TRUE)]
 S4_PY = 'def p_1(arg1):\n  yield False\n  )( this is not python\n'
 S5_PY = 'def p_1(arg1):\n  yield False\ndef q_1(arg1):\n  yield False\nundefined_name_so_this_raises\n'
-SCRIPTS = {'S1': S1, 'S2': S2, 'S3': S3, 'S6': S6}
+SCRIPTS = {'S1': S1, 'S2': S2, 'S3': S3, 'S6': S6, 'S7': S7, 'S8': S8}
 
 EVENTS = [('reg', 'p', 1, None), ('reg', 'p', 2, 2), ('reg', 'p', 'n', -1), ('reg', 'q', 1, None),
           ('load', 'S1', True), ('load', 'S1', False), ('load', 'S2', True), ('load', 'S2', False),
@@ -43,11 +49,13 @@ EVENTS = [('reg', 'p', 1, None), ('reg', 'p', 2, 2), ('reg', 'p', 'n', -1), ('re
           ('badload', 'S4'), ('badload', 'S5'),
           ('assert', F('p', A('x'))), ('assert', F('p', A('x'), A('y'))), ('clear',),
           # a call p(X) that stays suspended while later events happen (it was resolved when made)
-          ('start',), ('step',), ('close',), ('drain',)]
+          ('start',), ('step',), ('close',), ('drain',),
+          ('load', 'S7', True), ('load', 'S7', False), ('load', 'S8', False), ('assert', F('up', A('x'), A('zero')))]
+CORE_EVENTS = [0, 2, 4, 5, 7, 9, 13, 14, 16, 17, 18, 20]
 # histories also start from non-initial states (event prefixes executed first)
-PREFIXES = [(), (5, 7), (0, 5), (4, 14, 5)]   # nothing | S1+S2 combined | python p/1 + S1 | S1, fact p(x), S1 again
+PREFIXES = [(), (5, 7), (0, 5), (4, 14, 5), (21,)]   # nothing | S1+S2 combined | python p/1 + S1 | S1, fact p(x), S1 again
 QUERIES = [('p', 0), ('p', 1), ('p', 2), ('p', 3), ('q', 1), ('once_1', 0), ('once_1', 1), ('p_n', 1), ('call_n', 0),
-           ('foo', 1), ('foo_1', 0)]
+           ('foo', 1), ('foo_1', 0), ('up', 2)]
 API_NAMES = ['query', 'atom', 'variable', 'unify', 'functor', 'makelist', 'listpair', 'match_dynamic', 'ATOM_NIL',
              'functor1', 'True', '__builtins__']
 
@@ -278,17 +286,21 @@ def compile_scripts():
 
 
 def plan(tier):
-    d = 4 if tier == 'quick' else 5
-    n = 64 if tier == 'quick' else 512
-    sh = [(d, k, n, 0) for k in range(n)]
-    for pi in range(1, len(PREFIXES)):
-        sh += [(d - 1, k, n // 4, pi) for k in range(n // 4)]
+    # full alphabet to depth 3 (T 4) from every start state; a core of 12 events one step deeper
+    # from the empty engine
+    d = 3 if tier == 'quick' else 4
+    n = 16 if tier == 'quick' else 128
+    sh = []
+    for pi in range(len(PREFIXES)):
+        sh += [(d, k, n, pi, 'all') for k in range(n)]
+    sh += [(d + 1, k, 2 * n, 0, 'core') for k in range(2 * n)]
     return sh
 
 
 def run_shard(spec):
-    depth, k, n, pi = spec
+    depth, k, n, pi, alpha = spec
     prefix = PREFIXES[pi]
+    alphabet = list(range(len(EVENTS))) if alpha == 'all' else CORE_EVENTS
     acc = Acc()
     try:
         texts = compile_scripts()
@@ -297,7 +309,7 @@ def run_shard(spec):
         acc.n['validated'] += 1
         acc.violation('compile:' + impl.exc_sig(e), (0,), {'hist': []}, 'compiling the scripts raised %r' % (e,))
         return acc
-    for idx, hist in enumerate(itertools.product(range(len(EVENTS)), repeat=depth)):
+    for idx, hist in enumerate(itertools.product(alphabet, repeat=depth)):
         if idx % n != k:
             continue
         acc.n['evaluations'] += 1
